@@ -469,6 +469,40 @@ def _(c):
     c.ensure("initial_untouched", bool(np.array_equal(np.asarray(orb, dtype=float), np.array(list(r0) + list(v0))) and orb.date == d0))
 
 
+
+def _grid_short(tier, rng):
+    """methods {rk4, dopri54} (nominal step 60 s) x iteration spans of {0.5, 1, 2, 3, 5, 6.5} integration steps x output step {10 s, 25 s} or an explicit list of
+    three dates inside the span"""
+    for m in (0, 1):
+        for k in (0.5, 1, 2, 3, 5, 6.5):
+            for mode in (0, 1, 2):
+                yield {"method": m, "k": k, "mode": mode}
+
+
+@contract("C06", "short_spans", funcs=[f"{KNC}._iter", "beyond.propagators.base:NumericalPropagator.iter"], grid=_grid_short, level="bounded")
+def _(c):
+    """bounded: an iteration over a span shorter than the interpolation window (fewer than 8 integration steps) with an output step of its own, or over an explicit
+    list of dates, is either refused (ValueError: too few points to interpolate -- the behaviour of the pinned tree, C08's listed finding) or yields, for every date,
+    the state a direct propagation to that date returns (2 cm): never a state interpolated from too few points"""
+    from beyond.dates import timedelta
+    method = ["rk4", "dopri54"][c.integer("method")]
+    orb, r0, v0, d0, T, mu = _orbit("iss", method, 60.0, 1e-4)
+    span = c.real("k") * 60.0
+    mode = c.integer("mode")
+    try:
+        if mode == 2:
+            pts = list(orb.iter(dates=[d0 + timedelta(seconds=span * f) for f in (0.17, 0.5, 0.93)]))
+        else:
+            pts = list(orb.iter(stop=d0 + timedelta(seconds=span), step=timedelta(seconds=[10.0, 25.0][mode])))
+    except ValueError as e:
+        c.ensure("refused_or_same_as_propagate", "interpolate" in str(e))
+        return
+    worst = 0.0
+    for p_ in pts:
+        via = np.asarray(orb.propagate(p_.date), dtype=float)
+        worst = max(worst, float(np.linalg.norm(np.asarray(p_[:3], dtype=float) - via[:3])))
+    c.ensure("refused_or_same_as_propagate", worst <= 2e-2)
+
 def _grid_near(tier, rng):
     """methods {rk4, rkf54, dopri54} (nominal step 60 s) x targets at k steps from the epoch, k in {+-1, +-2, +-3, +-6, +-7, +-8, +-0.5, +-1.5, +-6.25} (on and off the
     integration grid, inside and outside the 8-point interpolation window), forwards and backwards"""
